@@ -520,6 +520,16 @@ func (e *Engine) builtin(st *State, fr *Frame, x *ssa.Call, b *ssa.Builtin, args
 		e.lockCheckMap(st, fr, x.Call.Args[0], true, x)
 		e.mapDelete(st, m, args[1])
 		return nil, VTuple{}
+	case "clear":
+		// clear(m): no key is present afterwards (the map object stays the same)
+		if m, ok := args[0].(VMap); ok && m.Conc == nil {
+			e.lockCheckMap(st, fr, x.Call.Args[0], true, x)
+			pn, _ := mapHeapNames(m.K, m.V)
+			ph := e.heap(st, pn, HeapB)
+			e.setHeap(st, pn, Store(ph, m.Ref, ConstArray(RowB, False)))
+			st.assume(Eq(App("maplen", IntS, ConstArray(RowB, False)), Zero))
+			return nil, VTuple{}
+		}
 	case "ssa:wrapnilchk":
 		return nil, args[0]
 	case "ssa:deferstack":
@@ -1308,6 +1318,14 @@ func (e *Engine) immutableViolated(sp *ssa.Package, im ImmutableSpec) string {
 					ms := e.Prog.MethodSets.MethodSet(t)
 					for i := 0; i < ms.Len(); i++ {
 						if f := e.Prog.MethodValue(ms.At(i)); f != nil && f.Pkg == p {
+							visit(f)
+						}
+					}
+				}
+				// methods of a generic type have no MethodValue: their origin bodies are reached through FuncValue
+				if named, ok := tn.Type().(*types.Named); ok && named.TypeParams().Len() > 0 {
+					for i := 0; i < named.NumMethods(); i++ {
+						if f := e.Prog.FuncValue(named.Method(i)); f != nil {
 							visit(f)
 						}
 					}
